@@ -10,6 +10,7 @@ import (
 	"bytes"
 	"context"
 	"encoding/json"
+	"errors"
 	"fmt"
 	"log/slog"
 	"strconv"
@@ -48,9 +49,11 @@ type rcaseT struct {
 	Chain    []opT
 	Call     []attrT
 	Buffered bool `json:",omitempty"`
-	Source   bool `json:",omitempty"` // logging.WithSource(true): the handlers add the call site
-	Entry    int  // 0 slog.Logger.Info, 1 LogAttrs, 2 Logger.Warn (no chain), 3 BatchLogger (no chain), 4 first op via Logger.With/WithGroup
-	Level    int  // 0 info 1 warn 2 error
+	// FailFirst (with Buffered): the whole thing happens twice, the first time with the output down
+	FailFirst bool `json:",omitempty"`
+	Source    bool `json:",omitempty"` // logging.WithSource(true): the handlers add the call site
+	Entry     int  // 0 slog.Logger.Info, 1 LogAttrs, 2 Logger.Warn (no chain), 3 BatchLogger (no chain), 4 first op via Logger.With/WithGroup
+	Level     int  // 0 info 1 warn 2 error
 }
 
 func (a attrT) text() string {
@@ -122,13 +125,34 @@ type pairT struct {
 
 // runRedact performs the log call on the real code and returns the bytes written.
 func runRedact(c rcaseT) (out []byte, panicked bool) {
+	out, _, panicked = runRedact2(c)
+	return
+}
+
+// failWriter fails every write while `fail` is set (an output that is down)
+type failWriter struct {
+	w    *bytes.Buffer
+	fail bool
+}
+
+func (f *failWriter) Write(p []byte) (int, error) {
+	if f.fail {
+		return 0, errors.New("output is down")
+	}
+	return f.w.Write(p)
+}
+
+// runRedact2 also returns `side`: text the logger handed back to its caller instead of writing it (the error of a
+// FlushBuffer whose writes failed) — a caller will print or log it, so sensitive values must not be in it either
+func runRedact2(c rcaseT) (out, side []byte, panicked bool) {
 	var buf bytes.Buffer
 	defer func() {
 		if p := recover(); p != nil {
 			out, panicked = buf.Bytes(), true
 		}
 	}()
-	opts := []logging.Option{logging.WithHandlerType(logging.HandlerType(c.H)), logging.WithOutput(&buf)}
+	fw := &failWriter{w: &buf}
+	opts := []logging.Option{logging.WithHandlerType(logging.HandlerType(c.H)), logging.WithOutput(fw)}
 	if c.Source {
 		opts = append(opts, logging.WithSource(true))
 	}
@@ -173,50 +197,66 @@ func runRedact(c rcaseT) (out []byte, panicked bool) {
 		l.StartBuffering()
 	}
 	level := []slog.Level{slog.LevelInfo, slog.LevelWarn, slog.LevelError}[c.Level%3]
-	sl := l.Logger()
-	for i, op := range c.Chain {
-		switch {
-		case i == 0 && c.Entry == 4 && op.IsG:
-			sl = l.WithGroup(op.G)
-		case i == 0 && c.Entry == 4:
-			sl = l.With(args(op.W)...)
-		case op.IsG:
-			sl = sl.WithGroup(op.G)
+	emitOnce := func() {
+		sl := l.Logger()
+		for i, op := range c.Chain {
+			switch {
+			case i == 0 && c.Entry == 4 && op.IsG:
+				sl = l.WithGroup(op.G)
+			case i == 0 && c.Entry == 4:
+				sl = l.With(args(op.W)...)
+			case op.IsG:
+				sl = sl.WithGroup(op.G)
+			default:
+				sl = sl.With(args(op.W)...)
+			}
+		}
+		switch c.Entry {
+		case 1:
+			sl.LogAttrs(context.Background(), level, "msg", attrs(c.Call)...)
+		case 2:
+			switch c.Level % 3 {
+			case 0:
+				l.Info("msg", args(c.Call)...)
+			case 1:
+				l.Warn("msg", args(c.Call)...)
+			default:
+				l.Error("msg", args(c.Call)...)
+			}
+		case 3:
+			bl := logging.NewBatchLogger(l, 8, time.Hour)
+			switch c.Level % 3 {
+			case 0:
+				bl.Info("msg", args(c.Call)...)
+			case 1:
+				bl.Warn("msg", args(c.Call)...)
+			default:
+				bl.Error("msg", args(c.Call)...)
+			}
+			bl.Close()
 		default:
-			sl = sl.With(args(op.W)...)
+			sl.Log(context.Background(), level, "msg", args(c.Call)...)
 		}
 	}
-	switch c.Entry {
-	case 1:
-		sl.LogAttrs(context.Background(), level, "msg", attrs(c.Call)...)
-	case 2:
-		switch c.Level % 3 {
-		case 0:
-			l.Info("msg", args(c.Call)...)
-		case 1:
-			l.Warn("msg", args(c.Call)...)
-		default:
-			l.Error("msg", args(c.Call)...)
+	if c.Buffered && c.FailFirst {
+		// the output is down while the startup buffer is flushed the first time: the record cannot be delivered, and
+		// what FlushBuffer reports goes to the caller; then the same again with the output back
+		fw.fail = true
+		emitOnce()
+		if err := l.FlushBuffer(); err != nil {
+			side = append(side, err.Error()...)
 		}
-	case 3:
-		bl := logging.NewBatchLogger(l, 8, time.Hour)
-		switch c.Level % 3 {
-		case 0:
-			bl.Info("msg", args(c.Call)...)
-		case 1:
-			bl.Warn("msg", args(c.Call)...)
-		default:
-			bl.Error("msg", args(c.Call)...)
-		}
-		bl.Close()
-	default:
-		sl.Log(context.Background(), level, "msg", args(c.Call)...)
+		fw.fail = false
+		l.StartBuffering()
 	}
+	emitOnce()
 	if c.Buffered {
-		_ = l.FlushBuffer()
+		if err := l.FlushBuffer(); err != nil {
+			side = append(side, err.Error()...)
+		}
 	}
 	_ = l.Shutdown(context.Background())
-	return buf.Bytes(), false
+	return buf.Bytes(), side, false
 }
 
 // ---- parsing the output back ----
@@ -531,7 +571,7 @@ func emitRedact(id string, c rcaseT, st *hx.Stats) string {
 		l.Str(a.Core)
 	}
 	in := l.String()
-	out, panicked := runRedact(c)
+	out, side, panicked := runRedact2(c)
 	l.Sep()
 	var perr error
 	if panicked {
@@ -549,7 +589,8 @@ func emitRedact(id string, c rcaseT, st *hx.Stats) string {
 		}
 		l.Nat(len(all))
 		for _, a := range all {
-			l.Bool(bytes.Contains(out, []byte(a.Core)))
+			// anywhere in the output, or in what the logger handed back to its caller
+			l.Bool(bytes.Contains(out, []byte(a.Core)) || bytes.Contains(side, []byte(a.Core)))
 		}
 	}
 	if st != nil {
@@ -576,6 +617,9 @@ func emitRedact(id string, c rcaseT, st *hx.Stats) string {
 		}
 		if c.Source {
 			st.Count("redact_with_source")
+		}
+		if c.FailFirst {
+			st.Count("redact_output_down_first")
 		}
 		if c.User != "" {
 			st.Count("redact_user_replacer")
@@ -782,6 +826,7 @@ func genRedact(r *hx.Rand, allowLV bool) rcaseT {
 		g.keepGroupsAlive(c.Call, c.UserKey)
 	}
 	c.Buffered = r.Chance(1, 4)
+	c.FailFirst = c.Buffered && r.Chance(1, 3)
 	c.Level = r.Intn(3)
 	if len(c.Chain) == 0 {
 		c.Entry = hx.Pick(r, []int{0, 1, 2, 3})
